@@ -209,3 +209,75 @@ Theorem C03_var_project_alias : forall b x, wf b -> x < nvars b ->
     forall v, eval r v = true <-> exists c, eval b (upd v x c) = true.
 Proof. exact var_exists_spec. Qed.
 Print Assumptions C03_var_project_alias.
+
+(* ---- order / repetition / independence for the PUBLIC entry points (C03_independent and
+   C03_order_repetition_irrelevant above are about the internal `project`).  Operands merely well-formed; the lists may
+   differ in order, repetitions and out-of-range entries as long as they list the same set. ---- *)
+From BddVerif Require Proofs.GapsQuant.
+
+Theorem C03_exists_set_only : forall b vs vs', wf b -> (forall y, In y vs <-> In y vs') ->
+  bdd_exists b vs = bdd_exists b vs'.
+Proof. exact GapsQuant.exists_set_only. Qed.
+Print Assumptions C03_exists_set_only.
+
+Theorem C03_for_all_set_only : forall b vs vs', wf b -> (forall y, In y vs <-> In y vs') ->
+  bdd_for_all b vs = bdd_for_all b vs'.
+Proof. exact GapsQuant.for_all_set_only. Qed.
+Print Assumptions C03_for_all_set_only.
+
+Theorem C03_bin_exists_set_only : forall A B op vs vs',
+  wf A -> wf B -> nvars A = nvars B -> total2 op -> consistent2 op -> (forall y, In y vs <-> In y vs') ->
+  binary_op_with_exists A B op vs = binary_op_with_exists A B op vs'.
+Proof. exact GapsQuant.bin_exists_set_only. Qed.
+Print Assumptions C03_bin_exists_set_only.
+
+Theorem C03_bin_for_all_set_only : forall A B op vs vs',
+  wf A -> wf B -> nvars A = nvars B -> total2 op -> consistent2 op -> (forall y, In y vs <-> In y vs') ->
+  binary_op_with_for_all A B op vs = binary_op_with_for_all A B op vs'.
+Proof. exact GapsQuant.bin_for_all_set_only. Qed.
+Print Assumptions C03_bin_for_all_set_only.
+
+(* `project` itself for a merely well-formed operand (strengthens C03_order_repetition_irrelevant) *)
+Theorem C03_project_set_only_wf : forall u b vs vs', wf b -> (forall y, In y vs <-> In y vs') ->
+  project u b vs = project u b vs'.
+Proof. exact GapsQuant.project_set_only_wf. Qed.
+Print Assumptions C03_project_set_only_wf.
+
+(* the result does not depend on any quantified variable *)
+Theorem C03_exists_independent : forall b vs r, wf b -> bdd_exists b vs = Ok r ->
+  forall x, In x vs -> forall v c, eval r (upd v x c) = eval r v.
+Proof. exact GapsQuant.exists_independent. Qed.
+Print Assumptions C03_exists_independent.
+
+Theorem C03_for_all_independent : forall b vs r, wf b -> bdd_for_all b vs = Ok r ->
+  forall x, In x vs -> forall v c, eval r (upd v x c) = eval r v.
+Proof. exact GapsQuant.for_all_independent. Qed.
+Print Assumptions C03_for_all_independent.
+
+Theorem C03_bin_exists_independent : forall A B op vs r,
+  wf A -> wf B -> nvars A = nvars B -> total2 op -> consistent2 op -> binary_op_with_exists A B op vs = Ok r ->
+  forall x, In x vs -> forall v c, eval r (upd v x c) = eval r v.
+Proof. exact GapsQuant.bin_exists_independent. Qed.
+Print Assumptions C03_bin_exists_independent.
+
+Theorem C03_bin_for_all_independent : forall A B op vs r,
+  wf A -> wf B -> nvars A = nvars B -> total2 op -> consistent2 op -> binary_op_with_for_all A B op vs = Ok r ->
+  forall x, In x vs -> forall v c, eval r (upd v x c) = eval r v.
+Proof. exact GapsQuant.bin_for_all_independent. Qed.
+Print Assumptions C03_bin_for_all_independent.
+
+(* n: valid, not canonical (duplicated node); permuted / repeated / out-of-range lists *)
+Example C03_set_only_example :
+  let n := [mkNode 3 0 0; mkNode 3 1 1; mkNode 1 0 1; mkNode 1 0 1; mkNode 0 2 3] in
+  let a := [mkNode 3 0 0; mkNode 3 1 1; mkNode 2 0 1; mkNode 0 0 2] in
+  wfb n = true /\ canonicalb n = false /\
+  bdd_exists n [0; 2] = bdd_exists n [2; 0; 2; 0] /\
+  bdd_exists n [0; 2] = Ok [mkNode 3 0 0; mkNode 3 1 1; mkNode 1 0 1] /\
+  bdd_for_all n [0; 7] = bdd_for_all n [7; 7; 0] /\
+  bdd_for_all n [0; 7] = Ok [mkNode 3 0 0; mkNode 3 1 1; mkNode 1 0 1] /\
+  binary_op_with_exists n a op_and [2; 1] = binary_op_with_exists n a op_and [1; 2; 1] /\
+  binary_op_with_exists n a op_and [2; 1] = Ok [mkNode 3 0 0; mkNode 3 1 1; mkNode 0 0 1] /\
+  binary_op_with_for_all n a op_or [2] = binary_op_with_for_all n a op_or [2; 2] /\
+  binary_op_with_for_all n a op_or [2] = Ok [mkNode 3 0 0; mkNode 3 1 1; mkNode 1 0 1].
+Proof. exact GapsQuant.quant_set_only_example. Qed.
+Print Assumptions C03_set_only_example.
